@@ -81,12 +81,12 @@ Fixpoint render_items (f : nat) (s k : N) (its : list item) : text :=
       ++ trailer s (k + 9)
       ++ render_items f' s (k + 20) t
     | IEqu n e :: t =>
-      name_of s n ++ gap s (k + 1) ++ recase s (k + 2) (s2t "EQU") ++ gap s (k + 3) ++ render_expr s (k + 4) e
+      name_of s n ++ (if pick s (k + 5) 3 =? 0 then [58] else []) ++ gap s (k + 1) ++ recase s (k + 2) (s2t "EQU") ++ gap s (k + 3) ++ render_expr s (k + 4) e
       ++ trailer s (k + 9) ++ render_items f' s (k + 20) t
     | IAssert e :: t =>
       s2t ";assert " ++ render_expr s (k + 4) e ++ [10] ++ render_items f' s (k + 20) t
     | IFor ls c cnt body :: t =>
-      flat_map (fun id => name_of s id ++ gap s (k + id)) ls
+      flat_map (fun id => name_of s id ++ (if pick s (k + id + 3) 3 =? 0 then [58] else []) ++ gap s (k + id)) ls
       ++ name_of s c ++ gap s (k + 1) ++ recase s (k + 2) (s2t "FOR") ++ gap s (k + 3) ++ render_expr s (k + 4) cnt ++ [10]
       ++ render_items f' s (k + 20) body
       ++ optgap s (k + 5) ++ recase s (k + 6) (s2t "ROF") ++ [10]
@@ -103,8 +103,13 @@ Fixpoint item_size (it : item) : nat :=
 Definition items_size (its : list item) : nat :=
   S (S (fold_right (fun x acc => (item_size x + acc)%nat) O its)).
 
+(* a missing final newline is a layout variation too *)
+Definition strip_final_nl (t : text) : text :=
+  match rev t with 10 :: r => rev r | _ => t end.
+
 Definition render (s : N) (p : prog) : text :=
-  (match pr_name p with Some n => s2t ";name " ++ n ++ [10] | None => [] end)
+  (if pick s 17 5 =? 0 then strip_final_nl else fun t => t)
+  ((match pr_name p with Some n => s2t ";name " ++ n ++ [10] | None => [] end)
   ++ (match pr_author p with Some n => s2t ";author " ++ n ++ [10] | None => [] end)
   ++ (match pr_org p with
       | Some e => optgap s 1 ++ recase s 2 (s2t "ORG") ++ gap s 3 ++ render_expr s 4 e ++ trailer s 5
@@ -112,7 +117,7 @@ Definition render (s : N) (p : prog) : text :=
   ++ render_items (items_size (pr_items p)) s 100 (pr_items p)
   ++ (match pr_end p with
       | Some e => optgap s 11 ++ recase s 12 (s2t "END") ++ gap s 13 ++ render_expr s 14 e ++ [10]
-      | None => if pick s 15 2 =? 0 then recase s 16 (s2t "END") ++ [10] else [] end).
+      | None => if pick s 15 2 =? 0 then recase s 16 (s2t "END") ++ [10] else [] end)).
 
 (* ---------- unrolling FOR blocks ---------- *)
 Fixpoint subst_counter (c : N) (i : Z) (e : nexpr) : nexpr :=
